@@ -25,7 +25,9 @@ func init() {
 			"R3 every size refusal of the appender and differ admits the documented 1000 elements, the setter and differ admit whatever the appender admits, " +
 			"and the integer refusal of the scalar encoder admits exactly a range between ±(2^53−1) and ±2^53; " +
 			"R4 the struct-tag dispatch orders of Encode, Decode, DiffPoints and the node finder are pairwise order-consistent, producers skip no higher-precedence tag of Decode, " +
-			"and Encode's tags and node sub-keys are a subset of Decode's. " +
+			"and Encode's tags and node sub-keys are a subset of Decode's; " +
+			"R9 for a slice field whose length differs between before and after — also when both share their backing array — every path through the differ's field loop emits the live points / tombstones of the length difference or fails (scenario evaluation, plain helpers in line); " +
+			"R10 every working container of the codec is fresh per call, or, when taken from a sync.Pool or a package-level variable, empty when first read (emptied after Get, or every hand-back on every return path hands back an emptied container). " +
 			"Decided: these tables, exhaustively over switch arms / sites / CFG paths; not decided: slice growth and trimming, tombstone semantics, map and pointer handling, Diff∘Merge = identity, numeric conversion results.",
 		Assumptions: []string{
 			"round-trip equality over values is not statically decided; only the agreement of the tables both directions are driven by",
@@ -422,6 +424,8 @@ func runC10(c *kit.Ctx) {
 	c10R5(c, m)
 	c10R6(c, m)
 	c10R8(c, m)
+	c10R9(c, m)
+	c10R10(c, m)
 }
 
 // ---- R1 --------------------------------------------------------------------
